@@ -30,10 +30,10 @@ func init() {
 	c02cases = append(c02cases,
 		// ---------------------------------------------------------------- statet
 		c02case{name: "statet.ApTry", pos: []int{pStep, pVal, pFn},
-			run: func(e E) c02res { return statetRes(e, statet.ApTry(statetOpOf(e, 1, f13(e)), tryOp(e, 2))) },
+			run:  func(e E) c02res { return statetRes(e, statet.ApTry(statetOpOf(e, 1, f13(e)), tryOp(e, 2))) },
 			want: func(e E) int { return e.h(e.v(2)) }},
 		c02case{name: "statet.ApOption", pos: []int{pStep, pVal, pFn}, tags: map[int]string{2: "lib:empty"},
-			run: func(e E) c02res { return statetRes(e, statet.ApOption(statetOpOf(e, 1, f13(e)), optionOp(e, 2))) },
+			run:  func(e E) c02res { return statetRes(e, statet.ApOption(statetOpOf(e, 1, f13(e)), optionOp(e, 2))) },
 			want: func(e E) int { return e.h(e.v(2)) }},
 		c02case{name: "statet.FlatMapConst", pos: []int{pStep, pStep},
 			run:  func(e E) c02res { return statetRes(e, statet.FlatMapConst(statetOp(e, 1), statetOp(e, 2))) },
@@ -113,7 +113,9 @@ func init() {
 			},
 			want: func(e E) int { return e.v(1) }},
 		c02case{name: "option.Map method", pos: []int{pVal, pFn},
-			run:  func(e E) c02res { return optionRes(e, optionOp(e, 1).Map(func(a int) int { e.call(2); return e.h(a) })) },
+			run: func(e E) c02res {
+				return optionRes(e, optionOp(e, 1).Map(func(a int) int { e.call(2); return e.h(a) }))
+			},
 			want: func(e E) int { return e.h(e.v(1)) }},
 		c02case{name: "option.FlatMap method", pos: []int{pVal, pStep},
 			run: func(e E) c02res {
@@ -176,6 +178,47 @@ func init() {
 				return tryResOf(e, try.TraverseOption(option.None[int](), func(i int) fp.Try[int] { e.call(99); return fp.Success(i) }), c02optConv(e))
 			},
 			want: func(e E) int { return -1 }},
+
+		// ---------------------------------------------------------------- builders with nil operands: a nil pointer / slice handed to Ap is a value, not a failure
+		c02case{name: "option.Applicative2 with nil pointer operands", pos: []int{pConst, pConst, pFn},
+			run: func(e E) c02res {
+				return optionRes(e, option.Applicative2(func(p *int, q []int) int { e.call(3); return e.h(len(q)) }).Ap((*int)(nil)).Ap([]int(nil)))
+			},
+			want: func(e E) int { return e.h(0) }},
+		c02case{name: "option.Applicative3 with nil last operand", pos: []int{pVal, pConst, pConst, pFn},
+			run: func(e E) c02res {
+				return optionRes(e, option.Applicative3(func(a int, p *int, m map[string]int) int { e.call(4); return e.h(a, len(m)) }).
+					ApOption(optionOp(e, 1)).Ap((*int)(nil)).Ap(map[string]int(nil)))
+			},
+			want: func(e E) int { return e.h(e.v(1), 0) }},
+		c02case{name: "option.Chain2 with nil pointer operands", pos: []int{pConst, pConst, pFn},
+			run: func(e E) c02res {
+				return optionRes(e, option.Chain2(func(p *int, q []int) int { e.call(3); return e.h(len(q)) }).Ap((*int)(nil)).Ap([]int(nil)))
+			},
+			want: func(e E) int { return e.h(0) }},
+		c02case{name: "option.Chain3 with nil last operand", pos: []int{pVal, pConst, pConst, pFn},
+			run: func(e E) c02res {
+				return optionRes(e, option.Chain3(func(a int, p *int, f func()) int { e.call(4); return e.h(a) }).
+					ApOption(optionOp(e, 1)).Ap((*int)(nil)).Ap((func())(nil)))
+			},
+			want: func(e E) int { return e.h(e.v(1)) }},
+		c02case{name: "try.Applicative2 with nil pointer operands", pos: []int{pConst, pConst, pFn},
+			run: func(e E) c02res {
+				return tryRes(e, try.Applicative2(func(p *int, q []int) int { e.call(3); return e.h(len(q)) }).Ap((*int)(nil)).Ap([]int(nil)))
+			},
+			want: func(e E) int { return e.h(0) }},
+		c02case{name: "try.Chain3 with nil last operand", pos: []int{pVal, pConst, pConst, pFn},
+			run: func(e E) c02res {
+				return tryRes(e, try.Chain3(func(a int, p *int, err error) int { e.call(4); return e.h(a) }).
+					ApTry(tryOp(e, 1)).Ap((*int)(nil)).Ap(error(nil)))
+			},
+			want: func(e E) int { return e.h(e.v(1)) }},
+		c02case{name: "option.Some/Map/FlatMap over a nil pointer value", pos: []int{pFn, pStep},
+			run: func(e E) c02res {
+				o := option.Map(option.Some((*int)(nil)), func(p *int) []int { e.call(1); return nil })
+				return optionRes(e, option.FlatMap(o, func(q []int) fp.Option[int] { e.call(2); return optionRet(e, 2, e.h(len(q))) }))
+			},
+			want: func(e E) int { return e.h(0) }},
 
 		// ---------------------------------------------------------------- try: Option transformer helpers
 		c02case{name: "try.MapOptionT/some", pos: []int{pVal, pFn},
